@@ -33,7 +33,14 @@ Ring == { D(op, n, rs, as, 62, 62, k, 11) :
             op \in {"add_into", "sub", "add_assign", "sub_assign", "sub_negate_assign", "negate", "rotate", "automorphism", "mul_xp_minus_one"},
             n \in Ns, rs \in S, as \in S, k \in {1, 3, 5} }
 
-Descs == Shifts \cup ShiftAssign \cup Norm1 \cup NormAssign \cup Ring
+\* 128-bit accumulators holding values beyond 64 bits (class 14: a seeded 40-bit high part on every word): only the NTT120 family
+\* can hold them, so these events are compared within a back-end family (reference against AVX); every radix pair, offsets of
+\* either sign with every kind of k mod b, plain / fused add / fused sub / negated forms
+NormWide == UNION { { D(op, n, rs, as, rb, ab, k, 14) :
+                        op \in {"big_normalize", "big_normalize_add_assign", "big_normalize_sub_assign", "big_normalize_negate"},
+                        k \in {0, 1, ab \div 2, ab - 1, ab, ab + 1, -1, 1 - ab, -ab} }
+                    : n \in Ns, rs \in S, as \in S, rb \in Bs, ab \in Bs }
+Descs == NormWide \cup Shifts \cup ShiftAssign \cup Norm1 \cup NormAssign \cup Ring
 
 ASSUME ndJsonSerialize(IOEnv.OUT, SetToSeq(Descs))
 ASSUME PrintT(<<"GENERATED", Cardinality(Descs)>>)
